@@ -149,6 +149,8 @@ def apply_ops_wt(wt, model, ops, use_ids=True):
             victims = [op[1]] + tm.descendants(model, op[1])
             vpaths = sorted((tm.path_of(model, v) for v in victims),
                             key=lambda p: (-p.count("/"), p))
+            leaves = [tm.path_of(model, v) for v in victims
+                      if model[v]["kind"] != "directory"]
             tm.apply_op(model, op)
             for p in vpaths:
                 ap = os.path.join(base, p)
@@ -156,7 +158,11 @@ def apply_ops_wt(wt, model, ops, use_ids=True):
                     os.unlink(ap)
                 else:
                     os.rmdir(ap)
-            wt.unversion(sorted(vpaths, key=lambda p: (-p.count("/"), p)))
+            if wt.has_versioned_directories():
+                wt.unversion(vpaths)
+            elif leaves:
+                # git: directories are implied by the files below them
+                wt.unversion(sorted(leaves, key=lambda p: (-p.count("/"), p)))
         elif k == "chmod":
             ap = os.path.join(base, tm.path_of(model, op[1]))
             os.chmod(ap, 0o755 if op[2] else 0o644)
